@@ -176,6 +176,8 @@ type Exec struct {
 	needChr       bool
 	needCard      bool
 	axMu          sync.Mutex
+	knownPath     *Term
+	knownHyps     map[string]*Term // quantified conjuncts asserted as hypotheses of the obligation being split -> guard
 	closureFn     map[ssa.Value]*ssa.Function
 	iterName      map[ssa.Value]string
 	iterLoop      map[string]*ssa.BasicBlock
@@ -991,6 +993,11 @@ func (ex *Exec) setupEntry() {
 		case "let":
 			ex.lets[c.Name] = ex.evalSpec(c.Expr, env)
 		case "requires":
+			// a precondition tagged for other properties is not assumed when this
+			// run checks a different one (its callers only establish it there)
+			if len(c.Tags) > 0 && ex.V.prop != "" && ex.V.prop != "all" && !hasTag(c.Tags, ex.V.prop) {
+				continue
+			}
 			v := ex.evalSpec(c.Expr, env)
 			ex.assume(v.T)
 		}
